@@ -40,3 +40,51 @@ M("bm_rastrigin_factor", "dropped factor in rastrigin_grad", ["C19"],
   ("lbfgsb/benchmarks.py", "return 2.0 * x + 20.0 * np.pi * np.sin(2.0 * np.pi * x)", "return 2.0 * x + 20.0 * np.sin(2.0 * np.pi * x)"))
 M("bm_griewank_den", "griewank_grad misses 1/sqrt(i)", ["C19"],
   ("lbfgsb/benchmarks.py", "np.prod(np.cos(x / den)) / np.cos(x / den) / den\n", "np.prod(np.cos(x / den)) / np.cos(x / den)\n"))
+
+# --- bfgsmats.py --------------------------------------------------------------
+M("bm_theta_inverse", "theta = s.y / y.y", ["C10", "C12"],
+  ("lbfgsb/bfgsmats.py", "        mats.theta = yTy / sTy\n", "        mats.theta = sTy / yTy\n"))
+M("bm_triu", "L taken from the upper triangle", ["C10"],
+  ("lbfgsb/bfgsmats.py", "        mats.L = np.tril(mats.L, -1)  # shape (m, m)", "        mats.L = np.triu(mats.L, 1).T  # shape (m, m)"))
+M("bm_evict_newest", "eviction with pop() instead of popleft()", ["C10", "C18"],
+  ("lbfgsb/bfgsmats.py", "    if len(X) > maxcor + 1:\n        X.popleft()\n        G.popleft()\n\n    return True",
+   "    if len(X) > maxcor + 1:\n        del X[-2]\n        del G[-2]\n\n    return True"))
+M("bm_curv_no_eps", "curvature test s.y > 0 without eps*y.y", ["C10"],
+  ("lbfgsb/bfgsmats.py", "    if sTy > eps * yTy:\n        return True", "    if sTy > 0:\n        return True"))
+M("bm_curv_ge", "curvature test s.y >= eps*y.y (accepts zero steps)", ["C10"],
+  ("lbfgsb/bfgsmats.py", "    if sTy > eps * yTy:\n        return True", "    if sTy >= eps * yTy:\n        return True"))
+M("bm_maxcor_off_by_one", "memory keeps maxcor+1 pairs", ["C10", "C18"],
+  ("lbfgsb/bfgsmats.py", "    if len(X) > maxcor + 1:\n        X.popleft()", "    if len(X) > maxcor + 2:\n        X.popleft()"))
+M("bm_theta_stale", "theta taken from the oldest pair", ["C10", "C12"],
+  ("lbfgsb/bfgsmats.py", "        yk = G[-1] - G[-2]\n        # sk = X[-1] - X[-2]\n        sTy = (X[-1] - X[-2]).dot(yk)",
+   "        yk = G[1] - G[0]\n        # sk = X[-1] - X[-2]\n        sTy = (X[1] - X[0]).dot(yk)"))
+M("main_stale_mats_after_reset", "matrices not reset after a failed line search", ["C10"],
+  ("lbfgsb/main.py", "                # Reboot BFGS-Hessian\n                mats = LBFGSB_MATRICES(n)\n", "                # Reboot BFGS-Hessian\n"))
+
+# --- cauchy.py ----------------------------------------------------------------
+M("cp_unsorted_mask", "pinned defect: sorted indices filtered with an unsorted mask (reverse of fix 0332fe3)", ["C08", "C01"],
+  ("lbfgsb/cauchy.py", "    sorted_t_idx: NDArrayInt = np.argsort(t)\n    sorted_t_idx = sorted_t_idx[t[sorted_t_idx] > 0]\n",
+   "    sorted_t_idx: NDArrayInt = np.argsort(t)[t > 0]\n"))
+M("cp_floor_1e30", "pinned defect: curvature floor 1e-30 (reverse of fix d4f4a94)", ["C08"],
+  ("lbfgsb/cauchy.py", "    eps_f_sec = np.finfo(float).eps\n", "    eps_f_sec = 1e-30\n"))
+M("cp_tie_mask", "pinned defect: tied breakpoint reset (reverse of fix 1674fa2)", ["C08"],
+  ("lbfgsb/cauchy.py", "    x_cp[d != 0] = (x + t_old * d)[d != 0]\n", "    x_cp[t >= t_cur] = (x + t_old * d)[t >= t_cur]\n"))
+M("cp_d_not_zeroed_on_bound", "d = -grad also for variables held at a bound", ["C08", "C02"],
+  ("lbfgsb/cauchy.py", "    d = np.where(t == 0, 0.0, -grad)\n", "    d = -grad\n"))
+M("cp_no_d_reset", "d[ibp] = 0 omitted after fixing a variable", ["C08"],
+  ("lbfgsb/cauchy.py", "        p += g_b * W_b\n        d[ibp] = 0\n", "        p += g_b * W_b\n"))
+M("cp_dtmin_not_clamped", "delta_t_min not clamped at 0", ["C08"],
+  ("lbfgsb/cauchy.py", "    delta_t_min = 0 if delta_t_min < 0 else delta_t_min\n", "    delta_t_min = delta_t_min\n"))
+M("cp_fprime_sign", "wrong sign in the f' update", ["C08"],
+  ("lbfgsb/cauchy.py", "        f_prime += delta_t * f_second + g_b * (g_b + mats.theta * zb)\n",
+   "        f_prime += delta_t * f_second - g_b * (g_b + mats.theta * zb)\n"))
+M("cp_c_not_advanced", "c not advanced on the last segment", ["C08", "C09"],
+  ("lbfgsb/cauchy.py", "    c += delta_t_min * p\n\n    if logger is not None:", "    if logger is not None:"))
+M("cp_strict_break", "break test uses <= (stops at a breakpoint one segment early on ties)", ["C08"],
+  ("lbfgsb/cauchy.py", "        if delta_t_min < delta_t:\n            is_gpc_found = True", "        if delta_t_min <= delta_t:\n            is_gpc_found = True"))
+M("cp_wrong_bound_lower", "breakpoints of decreasing variables computed from the upper bound", ["C08", "C02"],
+  ("lbfgsb/cauchy.py", "        grad[mask] < 0, (x - ub)[mask] / grad[mask], (x - lb)[mask] / grad[mask]\n",
+   "        grad[mask] < 0, (x - ub)[mask] / grad[mask], (x - ub)[mask] / grad[mask]\n"))
+M("cp_f2_no_memory_term", "f'' update drops the memory term", ["C08"],
+  ("lbfgsb/cauchy.py", "            f_second -= g_b * W_b.dot(bmv(mats.invMfactors, (2 * p + g_b * W_b)))\n",
+   "            f_second -= g_b * W_b.dot(bmv(mats.invMfactors, (2 * p)))\n"))
